@@ -1,7 +1,7 @@
 (** Helpers for running the VPK model against the implementation (correspondence, checks/c13.py).
     Nothing here is used by a theorem. *)
 From Coq Require Import List NArith ZArith Bool Uint63.
-From SV Require Import Fmt.VpkDir SM.Vpk Fmt.VpkArchName.
+From SV Require Import Fmt.VpkDir Fmt.VpkDirV2 SM.Vpk Fmt.VpkArchName.
 Import ListNotations.
 Open Scope N_scope.
 
@@ -107,3 +107,11 @@ Fixpoint list_eqb {A} (f : A -> A -> bool) (a b : list A) : bool :=
 Definition check_archname (c : ncfg) (f : bytes) (idxs : list N) (ex : option bytes * list (list (option bytes))) : bool :=
   let '(dp, names) := obs_name c f idxs in
   oB_eqb dp (fst ex) && list_eqb (list_eqb oB_eqb) names (snd ex).
+
+(** The same for both header versions: (VPK.version, entries, footer). *)
+Definition check_decode_v (dc : dcfg) (file : bytes) (ex : option (N * list ent_t * (N * N))) : bool :=
+  match dec_file_v dc file, ex with
+  | None, None => true
+  | Some (v, es, f), Some (xv, xs, fd) => (v =? xv) && ent_match xs (load_table es) && dg_eqb (dg f) fd
+  | _, _ => false
+  end.
